@@ -108,9 +108,13 @@ __CPROVER_requires(spec_nonneg(SPEC_L_EXPR(gbp), FMTVER) == NLEN)
 #ifdef NAME_OVERSIZE   /* instance: the encoded length exceeds NC_MAX_NAME */
 __CPROVER_requires(spec_nonneg(SPEC_L_EXPR(gbp), FMTVER) > NC_MAX_NAME)
 #endif
+#ifdef NAME_BOUNDARY   /* instance: the encoded length is exactly NC_MAX_NAME, the longest legal name; the first refill fails */
+__CPROVER_requires(spec_nonneg(SPEC_L_EXPR(gbp), FMTVER) == NC_MAX_NAME && g_fail_at == 0)
+#endif
 __CPROVER_assigns(*namep, *name_len, __CPROVER_object_whole(gbp->base), gbp->pos, gbp->offset, gbp->get_size, GHOST_ASSIGNS)
 __CPROVER_ensures(IMPLIES(spec_nonneg(old_L, FMTVER) > NC_MAX_NAME && !g_io_failed, __CPROVER_return_value == NC_EMAXNAME)) /*@oversize_name_rejected*/
 __CPROVER_ensures(IMPLIES(spec_nonneg(old_L, FMTVER) <= NC_MAX_NAME && !g_io_failed, __CPROVER_return_value == NC_NOERR)) /*@valid_name_accepted*/
+__CPROVER_ensures(IMPLIES(__CPROVER_return_value == NC_EMAXNAME, spec_nonneg(old_L, FMTVER) > NC_MAX_NAME)) /*@NC_EMAXNAME_only_for_a_name_longer_than_NC_MAX_NAME*/
 __CPROVER_ensures(IMPLIES(__CPROVER_return_value == NC_NOERR, *name_len == spec_nonneg(old_L, FMTVER))) /*@length_from_stream*/
 __CPROVER_ensures(IMPLIES(__CPROVER_return_value == NC_NOERR, *namep != NULL && __CPROVER_r_ok(*namep, *name_len + 1) && (*namep)[*name_len] == 0)) /*@nul_terminated*/
 __CPROVER_ensures(IMPLIES(__CPROVER_return_value == NC_NOERR, spec_bytes_match(*namep, old_L + W, *name_len))) /*@bytes_from_stream_across_chunks*/
@@ -143,6 +147,11 @@ static void setup(void)
 #ifdef NAME_OVERSIZE
     g_file_len = G_FILE_MAX;
     for (int k = 0; k < W; k++) g_file[PPOS + k] = (k == W - 2) ? 1 : (k == W - 1) ? OVERSIZE_LOW : 0;   /* 256 + low */
+#endif
+#ifdef NAME_BOUNDARY
+    g_file_len = G_FILE_MAX;
+    for (int k = 0; k < W; k++) g_file[PPOS + k] = (k == W - 2) ? 1 : 0;   /* exactly 256 = NC_MAX_NAME */
+    g_fail_at = 0;   /* the length field ends the window: the refill for the name's first byte fails, which ends the path */
 #endif
 #ifdef CONTRACT_FETCH_INITIAL
     gb.pos = window; gb.offset = 0;
@@ -186,6 +195,9 @@ void harness(void)
 #endif
 #ifdef NAME_OVERSIZE
     CANARY(r == NC_EMAXNAME, "emaxname");
+#endif
+#ifdef NAME_BOUNDARY
+    CANARY(r != NC_NOERR && r != NC_EMAXNAME && g_io_failed, "longest_legal_name_passes_the_length_test_and_reaches_the_refill");
 #endif
 }
 #endif
